@@ -6,7 +6,7 @@
  *     (an obligation of whichever /repo function reaches the call);
  *   - nondeterministic choice + __CPROVER_assume: what the *kernel* may answer;
  *   - updates of the ghost state `g`.
- * Every function may fail with any errno at every call unless g.cfg_nofault;
+ * Every function may fail with any errno at every call unless gc.cfg_nofault;
  * one proof therefore covers every subset of failing calls.
  *
  * The same file is compiled natively for replay (VERIF_NATIVE): nondet_*()
@@ -18,6 +18,7 @@
 #undef realloc
 
 struct ghost g;
+struct ghost_cfg gc;
 FILE verif_files[4];
 char **environ;
 
@@ -37,7 +38,7 @@ static void fault(int e)
 /* nondeterministically decide that this call fails; returns the errno or 0 */
 static int maybe_fault(void)
 {
-  if (g.cfg_nofault) {
+  if (gc.cfg_nofault) {
     return 0;
   }
   if (!nondet_bool()) {
@@ -70,7 +71,8 @@ void ghost_init(void)
 {
   /* DFCC makes every static object nondeterministic: start from zero */
   g = (struct ghost){ 0 };
-  g.plan_invalid_at = -1;
+  gc = (struct ghost_cfg){ 0 };
+  gc.plan_invalid_at = -1;
   g.open = nondet_uint();
   g.lib = nondet_uint() & g.open;
   g.cloexec = nondet_uint() & g.open;
@@ -83,11 +85,11 @@ void ghost_init(void)
   __CPROVER_assume(g.err >= 0 && g.err < 134);
   g.sigmask = nondet_ulong();
   g.disp_default = nondet_ulong();
-  g.cfg_nofault = nondet_bool();
+  gc.cfg_nofault = nondet_bool();
   g.faults = 0;
   g.os_calls = 0;
   g.in_fd = -1;
-  g.want_exit_fd = -1;
+  gc.want_exit_fd = -1;
 }
 
 /* ------------------------------ descriptors ------------------------------- */
@@ -219,13 +221,13 @@ int verif_open(const char *path, int flags, long mode)
     return -1;
   }
   uint8_t obj = OBJ_PATH_OTHER;
-  if (path == g.cfg_path[0]) {
+  if (path == gc.cfg_path[0]) {
     obj = OBJ_PATH_BASE + 0;
-  } else if (path == g.cfg_path[1]) {
+  } else if (path == gc.cfg_path[1]) {
     obj = OBJ_PATH_BASE + 1;
-  } else if (path == g.cfg_path[2]) {
+  } else if (path == gc.cfg_path[2]) {
     obj = OBJ_PATH_BASE + 2;
-  } else if (path == g.cfg_path[3]) {
+  } else if (path == gc.cfg_path[3]) {
     obj = OBJ_PATH_BASE + 3;
   } else if (is_dev_null(path)) {
     obj = OBJ_DEVNULL;
@@ -246,7 +248,7 @@ int verif_dup2(int oldfd, int newfd)
   os_call();
   V_ASSERT("C12/os.dup2.child_only", g.in_child);
   if (!IS_OPEN(oldfd) || !FD_OK(newfd)) {
-    g.err = EBADF;
+    fault(EBADF);
     return -1;
   }
   int e = maybe_fault();
@@ -272,14 +274,14 @@ int verif_fileno(FILE *f)
   os_call();
   int fd = -1;
   if (f == stdin) {
-    fd = g.cfg_std_fileno[0];
+    fd = gc.cfg_std_fileno[0];
   } else if (f == stdout) {
-    fd = g.cfg_std_fileno[1];
+    fd = gc.cfg_std_fileno[1];
   } else if (f == stderr) {
-    fd = g.cfg_std_fileno[2];
+    fd = gc.cfg_std_fileno[2];
   } else {
     V_ASSERT("C10/os.fileno.known_file", f == VERIF_USER_FILE);
-    fd = g.cfg_file_fd;
+    fd = gc.cfg_file_fd;
   }
   if (fd < 0) {
     g.err = EBADF;
@@ -311,18 +313,24 @@ ssize_t verif_read(int fd, void *buf, size_t n)
   }
   bool blocking = (g.nonblock & BIT(fd)) == 0;
 
-  /* The error pipe between fork and exec (assumed pipe law, DESIGN §7-9): the
-     parent reads what the child wrote; EOF iff the child exec'd or returned. */
-  if (!g.in_child && g.child_pid > 0 && n == sizeof(int) &&
-      g.obj[fd] >= OBJ_PIPE_BASE && g.child_fate != FATE_NONE) {
+  /* The error pipes between fork and exec (assumed pipe law, DESIGN §7-9): the
+     parent reads what the child wrote; end-of-file iff the child closed its end
+     without reporting (it reached exec, or returned in fork mode). */
+  if (!g.in_child && g.child_pid > 0 && n == sizeof(int) && g.obj[fd] >= OBJ_PIPE_BASE &&
+      (g.fork_stage == 1 || g.fork_stage == 2)) {
+    int stage = g.fork_stage;
+    g.fork_stage = stage + 1;
     g.may_block = g.may_block || blocking;
-    if (!g.cfg_nofault && nondet_bool()) {
+#ifndef VERIF_EXCLUDE_D10
+    if (!gc.cfg_nofault && nondet_bool()) {
       fault(EINTR);
       g.rd_errno = EINTR;
       g.rd_ret = -1;
       return -1;
     }
-    if (g.child_fate == FATE_FAILED) {
+#endif
+    if ((stage == 1 && g.child_fate == FATE_FAILED_EARLY) ||
+        (stage == 2 && g.child_fate == FATE_FAILED_LATE)) {
       *(int *) buf = g.child_fate_errno;
       g.rd_ret = (long) sizeof(int);
       return (ssize_t) sizeof(int);
@@ -383,11 +391,11 @@ ssize_t verif_write(int fd, const void *buf, size_t n)
 
   /* start-up input: the k-th write continues exactly where the previous
      one stopped */
-  bool input = g.in_data != NULL && __CPROVER_same_object(buf, g.in_data);
+  bool input = gc.in_data != NULL && __CPROVER_same_object(buf, gc.in_data);
   if (input) {
     V_ASSERT("C02/os.write.input_cursor",
-             buf == (const void *) (g.in_data + g.stream_pos) &&
-                 n == g.in_size - g.stream_pos);
+             buf == (const void *) (gc.in_data + g.stream_pos) &&
+                 n == gc.in_size - g.stream_pos);
     V_ASSERT("C02/os.write.input_one_descriptor", g.in_fd == -1 || g.in_fd == fd);
     /* start-up input must never make start block (C17) */
     V_ASSERT("C17/os.write.input_nonblocking", !blocking);
@@ -436,15 +444,15 @@ int verif_poll(struct pollfd *fds, nfds_t nfds, int timeout)
   if (timeout != 0) {
     g.may_block = true;
   }
-  if (g.plan_on) {
-    bool next = g.plan_pos < g.plan_n && g.plan_pos < 8 && g.plan_kind[g.plan_pos] == PLAN_WAIT;
+  if (gc.plan_on) {
+    bool next = g.plan_pos < gc.plan_n && g.plan_pos < 8 && gc.plan_kind[g.plan_pos] == PLAN_WAIT;
     V_ASSERT("C07+C15/stop.wait_is_next_planned_step", next);
     if (next) {
-      int t = g.plan_arg[g.plan_pos];
+      int t = gc.plan_arg[g.plan_pos];
       int want = t;
       if (t == -2) { /* until-deadline */
-        want = g.plan_deadline == -1 ? -1
-               : g.plan_deadline > g.now ? (int) (g.plan_deadline - g.now) : 0;
+        want = gc.plan_deadline == -1 ? -1
+               : gc.plan_deadline > g.now ? (int) (gc.plan_deadline - g.now) : 0;
       }
       V_ASSERT("C07+C08+C15/stop.wait_uses_action_timeout", timeout == want);
     }
@@ -502,7 +510,7 @@ pid_t verif_fork(void)
   if (g.fork_calls < 100) {
     g.fork_calls++;
   }
-  if (g.cfg_child_side) {
+  if (gc.cfg_child_side) {
     g.in_child = true;
     return 0;
   }
@@ -520,7 +528,10 @@ pid_t verif_fork(void)
   __CPROVER_assume(WST_LEGAL(g.child_wstatus));
   /* what the child will do before exec: decided here, observed through the
      error pipe (verif_read) */
-  g.child_fate = nondet_bool() ? FATE_EXECED : FATE_FAILED;
+  g.child_fate = nondet_int();
+  __CPROVER_assume(g.child_fate == FATE_EXECED || g.child_fate == FATE_FAILED_EARLY ||
+                   g.child_fate == FATE_FAILED_LATE);
+  g.fork_stage = 1;
   g.child_fate_errno = nondet_int();
   __CPROVER_assume(g.child_fate_errno > 0 && g.child_fate_errno < 134);
   return pid;
@@ -534,7 +545,7 @@ pid_t verif_waitpid(pid_t pid, int *wstatus, int options)
   }
   bool own = pid > 0 && pid == g.child_pid && g.child_live && !g.child_reaped;
   V_ASSERT("C06/os.waitpid.own_unreaped_child", own);
-  if (g.plan_on) {
+  if (gc.plan_on) {
     V_ASSERT("C01+C07/stop.reap_only_after_exit_seen", g.poll_ret > 0);
   }
   if (!own) {
@@ -542,6 +553,11 @@ pid_t verif_waitpid(pid_t pid, int *wstatus, int options)
     return -1;
   }
   int e = maybe_fault();
+#ifdef VERIF_EXCLUDE_D10
+  if (g.fork_stage != 0 && g.fork_stage != 4) {
+    e = 0; /* known finding D10: the reaping waitpid inside start is not interrupted */
+  }
+#endif
   if (e) {
     fault(e);
     return -1;
@@ -571,16 +587,16 @@ int verif_kill(pid_t pid, int sig)
   }
   bool own = pid > 0 && pid == g.child_pid && g.child_live && !g.child_reaped;
   V_ASSERT("C06/os.kill.own_unreaped_child", own);
-  if (g.plan_on) {
-    bool next = g.plan_pos < g.plan_n && g.plan_pos < 8 && g.plan_kind[g.plan_pos] == PLAN_KILL;
-    V_ASSERT("C07+C15/stop.signal_is_next_planned_step", next && g.plan_arg[g.plan_pos] == sig);
+  if (gc.plan_on) {
+    bool next = g.plan_pos < gc.plan_n && g.plan_pos < 8 && gc.plan_kind[g.plan_pos] == PLAN_KILL;
+    V_ASSERT("C07+C15/stop.signal_is_next_planned_step", next && gc.plan_arg[g.plan_pos] == sig);
     /* escalation only after the preceding wait expired (and, for an
        until-deadline wait, only once the deadline has passed) */
-    if (g.plan_pos > 0 && g.plan_pos <= 8 && g.plan_kind[g.plan_pos - 1] == PLAN_WAIT) {
+    if (g.plan_pos > 0 && g.plan_pos <= 8 && gc.plan_kind[g.plan_pos - 1] == PLAN_WAIT) {
       V_ASSERT("C07+C15/stop.escalates_only_after_wait_expired", g.poll_ret == 0);
       V_ASSERT("C15/stop.no_signal_before_deadline",
-               g.plan_arg[g.plan_pos - 1] != -2 ||
-                   (g.plan_deadline != -1 && g.now >= g.plan_deadline));
+               gc.plan_arg[g.plan_pos - 1] != -2 ||
+                   (gc.plan_deadline != -1 && g.now >= gc.plan_deadline));
     }
     g.plan_pos++;
   }
@@ -607,27 +623,27 @@ int verif_execvp(const char *file, char *const argv[])
   V_ASSERT("C12/os.exec.child_only", g.in_child);
 
   V_ASSERT("C10/exec.stdin_is_requested_object",
-           IS_OPEN(0) && g.obj[0] == g.want_obj[0]);
+           IS_OPEN(0) && g.obj[0] == gc.want_obj[0]);
   V_ASSERT("C10/exec.stdout_is_requested_object",
-           IS_OPEN(1) && g.obj[1] == g.want_obj[1]);
+           IS_OPEN(1) && g.obj[1] == gc.want_obj[1]);
   V_ASSERT("C10/exec.stderr_is_requested_object",
-           IS_OPEN(2) && g.obj[2] == g.want_obj[2]);
+           IS_OPEN(2) && g.obj[2] == gc.want_obj[2]);
   V_ASSERT("C10/exec.std_streams_survive_exec", (g.cloexec & 7u) == 0);
   V_ASSERT("C10/exec.stdin_direction",
-           g.want_acc[0] != 1 || (g.rd & BIT(0)) != 0);
+           gc.want_acc[0] != 1 || (g.rd & BIT(0)) != 0);
   V_ASSERT("C10/exec.stdout_direction",
-           g.want_acc[1] != 2 || (g.wr & BIT(1)) != 0);
+           gc.want_acc[1] != 2 || (g.wr & BIT(1)) != 0);
   V_ASSERT("C10/exec.stderr_direction",
-           g.want_acc[2] != 2 || (g.wr & BIT(2)) != 0);
+           gc.want_acc[2] != 2 || (g.wr & BIT(2)) != 0);
 
   /* C11: every other open descriptor is close-on-exec, except the exit handle */
   {
-    uint32_t keep = 7u | MASK_OF(g.want_exit_fd);
+    uint32_t keep = 7u | MASK_OF(gc.want_exit_fd);
     V_ASSERT("C11/exec.nothing_else_inherited",
              (g.open & ~g.cloexec & ~keep) == 0);
     V_ASSERT("C11/exec.exit_handle_inherited",
-             IS_OPEN(g.want_exit_fd) &&
-                 (g.want_exit_fd <= 2 || (g.cloexec & BIT(g.want_exit_fd)) == 0));
+             IS_OPEN(gc.want_exit_fd) &&
+                 (gc.want_exit_fd <= 2 || (g.cloexec & BIT(gc.want_exit_fd)) == 0));
   }
 
   V_ASSERT("C12/exec.signal_mask_empty", g.sigmask == 0);
@@ -635,10 +651,15 @@ int verif_execvp(const char *file, char *const argv[])
   V_ASSERT("C12/exec.dispositions_default",
            (~g.disp_default & 0xfffffffeUL & ~(1UL << SIGKILL) & ~(1UL << SIGSTOP)) == 0);
 
-  V_ASSERT("C03/exec.program", file == g.want_file);
-  V_ASSERT("C03/exec.argv_is_callers", argv == g.want_argv);
-  V_ASSERT("C03/exec.environment", environ == g.want_env);
-  V_ASSERT("C03/exec.working_directory", g.cwd_id == g.want_cwd_id);
+  /* C03: the program is a copy of argv[0], or cwd/argv[0] when a working directory
+     is requested and argv[0] is a relative path (resolved before chdir) */
+  V_ASSERT("C03/exec.program_is_argv0_or_cwd_prefixed",
+           gc.want_prepend ? (file != NULL && file == g.prep_ptr && g.prep_src == gc.want_argv0)
+                          : (file != NULL && file == g.dup_ptr && g.dup_src == gc.want_argv0));
+  V_ASSERT("C03/exec.argv_is_callers", argv == gc.want_argv);
+  V_ASSERT("C03/exec.environment_is_parent_then_extra",
+           environ != NULL && environ == g.env_ptr && g.env_a == gc.want_env_a && g.env_b == gc.want_env_b);
+  V_ASSERT("C03/exec.working_directory", g.cwd_id == gc.want_cwd_id);
 
   int e = maybe_fault();
   if (e) {
@@ -661,8 +682,10 @@ void verif__exit(int code)
      positive errno — the cause of the first failure */
   V_ASSERT("C04/child.failure_reported_once", g.child_reports == 1);
   V_ASSERT("C04/child.report_is_positive_errno", g.child_report > 0);
+  /* the first failed call's errno, or EMFILE for the descriptor-limit refusal
+     (the only failure that is not a failed call) */
   V_ASSERT("C04/child.report_is_real_cause",
-           g.faults == 0 || g.child_report == g.first_errno);
+           g.child_report == (g.faults > 0 ? g.first_errno : EMFILE));
   V_ASSERT("C04/child.no_exec_after_failure", !g.execd);
   g.exit_code = code;
   g.exited = true;
@@ -681,7 +704,7 @@ int verif_chdir(const char *path)
     fault(e);
     return -1;
   }
-  g.cwd_id = (path == g.cfg_wd) ? 1 : 2;
+  g.cwd_id = (path == gc.cfg_wd) ? 1 : 2;
   return 0;
 }
 
@@ -694,7 +717,7 @@ int verif_getrlimit(int resource, struct rlimit *rl)
     fault(e);
     return -1;
   }
-  rl->rlim_cur = g.cfg_rlim_cur;
+  rl->rlim_cur = gc.cfg_rlim_cur;
   rl->rlim_max = RLIM_INFINITY;
   return 0;
 }
@@ -723,7 +746,7 @@ int verif_pthread_sigmask(int how, const sigset_t *set, sigset_t *oldset)
   /* Only the first (blocking) call on the parent side, and the child's call,
      may fail: C12 exempts "the restoring call itself". Returns the error
      number; does not touch errno. */
-  if ((g.sigmask_calls == 1 || g.in_child) && !g.cfg_nofault && nondet_bool()) {
+  if ((g.sigmask_calls == 1 || g.in_child) && !gc.cfg_nofault && nondet_bool()) {
     int e = nondet_int();
     __CPROVER_assume(e > 0 && e < 134);
     if (g.faults == 0) {
@@ -732,13 +755,17 @@ int verif_pthread_sigmask(int how, const sigset_t *set, sigset_t *oldset)
     g.faults++;
     return e;
   }
+  /* like the kernel: the new set is read before the old one is stored (the
+     library passes the same object for both when it restores the mask) */
+  uint64_t next = g.sigmask;
+  if (set != NULL) {
+    V_ASSERT("C12/os.sigmask.setmask_only", how == SIG_SETMASK);
+    next = set->__val[0];
+  }
   if (oldset != NULL) {
     oldset->__val[0] = g.sigmask;
   }
-  if (set != NULL) {
-    V_ASSERT("C12/os.sigmask.setmask_only", how == SIG_SETMASK);
-    g.sigmask = set->__val[0];
-  }
+  g.sigmask = next;
   return 0;
 }
 
@@ -796,7 +823,7 @@ int verif_clock_gettime(clockid_t clk, struct timespec *ts)
 
 void *verif_malloc(size_t n)
 {
-  if (!g.cfg_nofault && nondet_bool()) {
+  if (!gc.cfg_nofault && nondet_bool()) {
     fault(ENOMEM);
     return NULL;
   }
@@ -805,7 +832,7 @@ void *verif_malloc(size_t n)
 
 void *verif_calloc(size_t n, size_t m)
 {
-  if (!g.cfg_nofault && nondet_bool()) {
+  if (!gc.cfg_nofault && nondet_bool()) {
     fault(ENOMEM);
     return NULL;
   }
@@ -814,7 +841,7 @@ void *verif_calloc(size_t n, size_t m)
 
 void *verif_realloc(void *p, size_t n)
 {
-  if (!g.cfg_nofault && nondet_bool()) {
+  if (!gc.cfg_nofault && nondet_bool()) {
     fault(ENOMEM);
     return NULL;
   }
@@ -825,7 +852,7 @@ void *verif_realloc(void *p, size_t n)
 /* strdup by provenance: a fresh object recorded as "copy of s" */
 char *verif_strdup(const char *s)
 {
-  if (!g.cfg_nofault && nondet_bool()) {
+  if (!gc.cfg_nofault && nondet_bool()) {
     fault(ENOMEM);
     return NULL;
   }
